@@ -66,6 +66,10 @@ func TestPropOrdered(t *testing.T) {
 		ngor := rapid.IntRange(1, 8).Draw(t, "goroutines")
 		prefix := fmt.Sprintf("c19.p%d.c%d.", pid(), caseNo)
 		var ops []*opT
+		shape := rapid.SampledFrom([]int{0, 0, 1, 2}).Draw(t, "nameshape")
+		// a crowd of other names (each seen once) dispatched between the first and the second half of every goroutine's
+		// points: per-name state must survive any number of other names
+		crowd := rapid.SampledFrom([]int{0, 0, 0, 0, 300, 3000}).Draw(t, "crowd")
 		tsPool := []uint32{0, 1, 2, 3, 5, 5, 7, 10, 100, 1500000000, 1500000001, 4294967295, 4294967294}
 		for s := 0; s < nseries; s++ {
 			n := rapid.IntRange(1, 10).Draw(t, "nops")
@@ -84,6 +88,12 @@ func TestPropOrdered(t *testing.T) {
 					ts = rapid.SampledFrom(tsPool).Draw(t, "ts")
 				}
 				name := fmt.Sprintf("%ss%d%s", prefix, s, seriesSuffix[s%len(seriesSuffix)])
+				switch shape {
+				case 1: // all series of the case share a 320-byte prefix and differ in the last bytes only
+					name = prefix + strings.Repeat("seg.", 80) + fmt.Sprintf("s%d", s)
+				case 2: // same name before the first ';', different tag values
+					name = fmt.Sprintf("%sshared;dc=eu;n=%d", prefix, s)
+				}
 				if rapid.IntRange(0, 3).Draw(t, "dot") == 0 {
 					name = "." + name
 				}
@@ -98,23 +108,34 @@ func TestPropOrdered(t *testing.T) {
 			perG[g] = append(perG[g], o)
 		}
 		before := h.ReadTableCounters()
-		var wg sync.WaitGroup
-		start := make(chan struct{})
-		for g := 0; g < ngor; g++ {
-			wg.Add(1)
-			go func(mine []*opT) {
-				defer wg.Done()
-				<-start
-				for _, o := range mine {
-					line := []byte(fmt.Sprintf("%s %d %d", o.name, o.id, o.ts))
-					o.call = time.Since(t0).Nanoseconds()
-					tab.Dispatch(line)
-					o.ret = time.Since(t0).Nanoseconds()
+		stage := func(half int) {
+			var wg sync.WaitGroup
+			start := make(chan struct{})
+			for g := 0; g < ngor; g++ {
+				mine := perG[g][:len(perG[g])/2]
+				if half == 1 {
+					mine = perG[g][len(perG[g])/2:]
 				}
-			}(perG[g])
+				wg.Add(1)
+				go func(mine []*opT) {
+					defer wg.Done()
+					<-start
+					for _, o := range mine {
+						line := []byte(fmt.Sprintf("%s %d %d", o.name, o.id, o.ts))
+						o.call = time.Since(t0).Nanoseconds()
+						tab.Dispatch(line)
+						o.ret = time.Since(t0).Nanoseconds()
+					}
+				}(mine)
+			}
+			close(start)
+			wg.Wait()
 		}
-		close(start)
-		wg.Wait()
+		stage(0)
+		for i := 0; i < crowd; i++ {
+			tab.Dispatch([]byte(fmt.Sprintf("%scrowd.n%d 0 %d", prefix, i, 1500000000+i)))
+		}
+		stage(1)
 		// which calls were forwarded?  (the capture route runs synchronously inside Dispatch)
 		got := map[string]int{}
 		for _, l := range cap.Lines() {
@@ -137,8 +158,13 @@ func TestPropOrdered(t *testing.T) {
 				nAcc++
 			}
 		}
-		if len(cap.Lines()) != nAcc {
-			t.Fatalf("capture route received %d lines, %d of them ours: %q", len(cap.Lines()), nAcc, cap.Lines())
+		for i := 0; i < crowd; i++ {
+			if got[fmt.Sprintf("%scrowd.n%d 0 %d", prefix, i, 1500000000+i)] != 1 {
+				t.Fatalf("the only point of name %scrowd.n%d was not forwarded exactly once", prefix, i)
+			}
+		}
+		if len(cap.Lines()) != nAcc+crowd {
+			t.Fatalf("capture route received %d lines, %d of them ours", len(cap.Lines()), nAcc+crowd)
 		}
 		hist := describe(ops)
 		// necessary conditions first: accepted timestamps of a series pairwise distinct; a
@@ -193,7 +219,7 @@ func TestPropOrdered(t *testing.T) {
 		}
 		// accounting: every rejection counted as out-of-order, none as invalid
 		d := h.ReadTableCounters().Sub(before)
-		if int(d.In) != len(ops) || int(d.OutOfOrder) != len(ops)-nAcc || d.Invalid != 0 {
+		if int(d.In) != len(ops)+crowd || int(d.OutOfOrder) != len(ops)-nAcc || d.Invalid != 0 {
 			t.Fatalf("counters: in=%d out_of_order=%d invalid=%d for %d points of which %d accepted; history %s", d.In, d.OutOfOrder, d.Invalid, len(ops), nAcc, hist)
 		}
 		// every series with a rejection shows up in the bad-metrics report with the reason
@@ -249,7 +275,7 @@ func TestPropOrdered(t *testing.T) {
 		}
 		canon := hist
 		canon = strings.ReplaceAll(canon, prefix, "")
-		rec.Case(fmt.Sprintf("g=%d %s", ngor, canon), nt, fmt.Sprintf("goroutines=%d", ngor), fmt.Sprintf("rejected>0=%v", nAcc < len(ops)))
+		rec.Case(fmt.Sprintf("g=%d %s", ngor, canon), nt, fmt.Sprintf("goroutines=%d", ngor), fmt.Sprintf("rejected>0=%v", nAcc < len(ops)), fmt.Sprintf("nameshape=%d", shape), fmt.Sprintf("crowd=%d", crowd))
 	})
 }
 
